@@ -184,11 +184,12 @@ prop(
 prop(
     "C16",
     module="Aquatic.Props.C16",
-    extra_modules=["Aquatic.Props.Store"],
+    extra_modules=["Aquatic.Props.Store", "Aquatic.Props.C16Read"],
     technique="Lean 4 proof (reply framing in the reused growing buffer for every body and prior buffer content; n routed swarm workers refine one reference tracker for announce / scrape / clean) + socket-level differential runs against the real tracker process over worker counts, keep-alive and TCP segmentation",
-    runs=[dict(harness="httpnet", driver="store", quick=dict(cases=24), thorough=dict(cases=240))],
-    nontrivial=["scrape-nonzero", "scrape-truncated", "re-announce", "small->large", "stopped"],
-    level_text="Theorems: for every body and every buffer satisfying the header invariant (whatever an earlier longer or shorter reply left in it) the bytes written are the status line, a Content-Length of |body|+2 padded with blanks, the blank line, the whole body and CRLF, the length parses back to the number of bytes that follow, and the invariant is re-established, hence every reply of a connection in order; for every number n > 0 of swarm workers, announces routed by the first hash byte, scrapes split per worker after the whole-request cut to max_scrape_torrents and merged, and per-worker cleaning keep the n stores in simulation with the restrictions of ONE reference tracker and return its replies. Tie: a tracker child process per case (socket_workers x swarm_workers in {1,2,3}^2, keep-alive on/off, requests split over TCP segments), each reply's head compared byte-for-byte with the model's writeResponse, its content with the reference tracker.",
+    runs=[dict(harness="httpnet", driver="store", quick=dict(cases=24), thorough=dict(cases=240)),
+          dict(harness="rawbytes", driver="rawbytes", quick=dict(cases=600), thorough=dict(cases=20000))],
+    nontrivial=["scrape-nonzero", "scrape-truncated", "re-announce", "small->large", "stopped", "prefix-stable"],
+    level_text="Theorems: for every body and every buffer satisfying the header invariant (whatever an earlier longer or shorter reply left in it) the bytes written are the status line, a Content-Length of |body|+2 padded with blanks, the blank line, the whole body and CRLF, the length parses back to the number of bytes that follow, and the invariant is re-established, hence every reply of a connection in order; for every number n > 0 of swarm workers, announces routed by the first hash byte, scrapes split per worker after the whole-request cut to max_scrape_torrents and merged, and per-worker cleaning keep the n stores in simulation with the restrictions of ONE reference tracker and return its replies; the request loop of a connection recognises a request exactly when its last byte has been read, for every way the transport cuts it into reads (given that no proper prefix of a request is itself accepted - checked on the real parser), and input that never completes ends the connection with RequestBufferFull. Tie: a tracker child process per case (socket_workers x swarm_workers in {1,2,3}^2, keep-alive on/off, requests split over TCP segments), each reply's head compared byte-for-byte with the model's writeResponse, its content with the reference tracker.",
     level_note="partial for the runtime part: TCP, SO_REUSEPORT balancing, glommio scheduling, request accumulation across segments are exercised only. The header literals are regenerated from connection.rs.",
     design_ref="§8 C16",
     assumptions=["Content-Length below 10^8 (8 digit cells; 100 MB reply)", "requests on one connection are sent after the previous reply arrived (as the property states)"],
